@@ -76,10 +76,28 @@ func Gen(rng *mrand.Rand, odsW, filled int) *Square {
 		counts[rng.IntN(k)]++
 	}
 	sq := &Square{ODSW: odsW, Filled: filled}
+	// realistic layouts carry padding shares in the middle of the square: namespace padding after a
+	// blob (same namespace as the blob) and reserved padding in front of the first blob
+	withPadding := rng.IntN(3) == 0
+	if withPadding && counts[0] > 1 && rng.IntN(2) == 0 {
+		// leading reserved padding takes the place of some shares of the first namespace run
+		n := 1 + rng.IntN(counts[0]-1)
+		counts[0] -= n
+		sq.Present = append(sq.Present, libshare.PrimaryReservedPaddingNamespace)
+		sq.Shares = append(sq.Shares, libshare.ReservedPaddingShares(n)...)
+	}
 	for i := 0; i < k; i++ {
 		n := ns(byte(2+2*i), 0)
 		sq.Present = append(sq.Present, n)
 		for j := 0; j < counts[i]; j++ {
+			if withPadding && j > 0 && rng.IntN(3) == 0 {
+				pad, err := libshare.NamespacePaddingShare(n, libshare.ShareVersionZero)
+				if err != nil {
+					panic(err)
+				}
+				sq.Shares = append(sq.Shares, pad)
+				continue
+			}
 			raw := make([]byte, libshare.ShareSize)
 			copy(raw, n.Bytes())
 			for x := libshare.NamespaceSize; x < len(raw); x++ {
